@@ -48,7 +48,8 @@ fn vary(r: &mut Rng, t: &ITy, d: usize) -> ITy {
         a.iter()
             .map(|x| match x {
                 IArg::Ty(t) => IArg::Ty(vary(r, t, d + 1)),
-                IArg::Lt(l) => IArg::Lt(if r.chance(30) { ILt::Bound(0, 3 + r.below(2)) } else { l.clone() }),
+                // lifetimes never make unification fail: any other lifetime keeps the pair unifiable
+                IArg::Lt(l) => IArg::Lt(if r.chance(30) { ILt::Bound(0, 3 + r.below(2)) } else if r.chance(40) { other_lt(r) } else { l.clone() }),
                 IArg::Ct(c) => IArg::Ct(if r.chance(30) { ICt::Bound(0, 5) } else { c.clone() }),
             })
             .collect()
@@ -60,12 +61,20 @@ fn vary(r: &mut Rng, t: &ITy, d: usize) -> ITy {
         ITy::Array(x, c) => ITy::Array(Box::new(vary(r, x, d + 1)), if r.chance(30) { ICt::Bound(0, 5) } else { c.clone() }),
         ITy::Slice(x) => ITy::Slice(Box::new(vary(r, x, d + 1))),
         ITy::Raw(m, x) => ITy::Raw(*m, Box::new(vary(r, x, d + 1))),
-        ITy::Ref(m, l, x) => ITy::Ref(*m, if r.chance(40) { ILt::Bound(0, 3) } else { l.clone() }, Box::new(vary(r, x, d + 1))),
+        ITy::Ref(m, l, x) => ITy::Ref(*m, if r.chance(30) { ILt::Bound(0, 3) } else if r.chance(50) { other_lt(r) } else { l.clone() }, Box::new(vary(r, x, d + 1))),
         ITy::OpaqueTy(id, a) => ITy::OpaqueTy(*id, va(r, a)),
         ITy::FnDef(id, a) => ITy::FnDef(*id, va(r, a)),
         ITy::Closure(id, a) => ITy::Closure(*id, va(r, a)),
         ITy::Fn(n, a) => ITy::Fn(*n, a.clone()),
         o => o.clone(),
+    }
+}
+
+fn other_lt(r: &mut Rng) -> ILt {
+    match r.below(4) {
+        0 => ILt::Static,
+        1 => ILt::Erased,
+        _ => ILt::Ph(r.below(3), r.below(3)),
     }
 }
 
@@ -168,7 +177,16 @@ pub fn run(ctx: &Ctx, out: &mut CaseOut) {
 
 /// Run-time monitor: inside real solves, every impl that `impls_for_trait` leaves out must fail to unify with the query.
 fn runtime_filter(ctx: &Ctx, r: &mut Rng, out: &mut CaseOut) {
-    let w = workload(r, ctx.k / 10, 2, 8);
+    let mut w = workload(r, ctx.k / 10, 2, 8);
+    // some impls come from "upstream" crates: they are filtered like any other impl
+    if w.fragment == "basic" || w.fragment == "basic-growing" {
+        for im in w.prog.impls.iter_mut() {
+            if r.chance(35) {
+                im.upstream = true;
+            }
+        }
+        w.text = crate::model::program_text(&w.prog);
+    }
     for choice in both() {
         let l = match load(&w.text, choice, false) {
             Ok(l) => l,
@@ -182,6 +200,7 @@ fn runtime_filter(ctx: &Ctx, r: &mut Rng, out: &mut CaseOut) {
                 };
                 let mut db = FaultDb::new(&*l.program, solver_name(&choice));
                 db.check_filter = true;
+                db.all_impls = l.program.impl_data.iter().map(|(id, d)| (*id, d.trait_id())).collect();
                 db.budget.set(300_000);
                 let mut s = choice.into_solver();
                 let _ = solve(&mut *s, &db, &p.goal);
